@@ -2,6 +2,7 @@ CONSTANT N = 6
 CONSTANT Universe <- UTrace
 CONSTANT MaxSteps = 1000000
 CONSTANT Thresholds = {0}
+CONSTANT MaxBatch = 1
 CONSTANT FeedModes = {FALSE}
 SPECIFICATION CSpec
 CONSTRAINT Progress
